@@ -5,7 +5,7 @@ import ast
 import html.entities
 import unicodedata
 
-from ..astu import (U, dotted, walk_shallow, fold, NotLiteral, fold_module_tables, call_name, calls_in, kwarg,
+from ..astu import (U, has, dotted, walk_shallow, fold, NotLiteral, fold_module_tables, call_name, calls_in, kwarg,
                     param_default, names_in)
 from ..core import AnalysisError, Mutant, Rule, Twin
 from ..idioms import for_loops, target_names
@@ -251,14 +251,39 @@ def r5_one_formula(ctx):
         ctx.check(c.args and U(c.args[0]) == farg, a, "name-is-formula", "the substance name is %s, expected the formula" % (U(c.args[0]) if c.args else None), node=c)
         want = {"latex_name": "formula_to_latex", "unicode_name": "formula_to_unicode", "html_name": "formula_to_html",
                 "composition": "formula_to_composition"}
+        suffix_exprs = set()
         for kw, f in want.items():
             v = kwarg(c, kw)
             ok = isinstance(v, ast.Call) and call_name(v) == f and v.args and U(v.args[0]) == farg
             if ok and phased:
                 sv = kwarg(v, "suffixes")
-                ok = sv is not None and U(sv) == "phases"
-            ctx.check(ok, a, kw, "%s= must be %s(%s%s); found %s" % (kw, f, farg, ", suffixes=phases" if phased else "", U(v) if v is not None else None), node=c)
+                ok = sv is not None
+                if ok:
+                    suffix_exprs.add(U(sv))
+            ctx.check(ok, a, kw, "%s= must be %s(%s%s); found %s" % (kw, f, farg, ", suffixes=<phase suffixes>" if phased else "", U(v) if v is not None else None), node=c)
         if phased:
+            # one suffix set for all four views; it contains the phase suffixes and the notation's own default suffixes
+            ctx.check(len(suffix_exprs) == 1, a, "one-suffix-set", "the three names and the composition must be parsed with the same suffixes; found %s" % sorted(suffix_exprs), node=c)
+            sx = next(iter(suffix_exprs)) if suffix_exprs else None
+            sdef = None
+            if sx is not None and sx != "phases":
+                for n in walk_shallow(fn):
+                    if isinstance(n, ast.Assign) and U(n.targets[0]) == sx:
+                        sdef = n.value
+            dflt = param_default(fn, "phases")
+            parser_default = param_default(ctx.func(PARSING, "formula_to_composition"), "suffixes")
+            try:
+                env = {"phases": fold(dflt, {})}
+                got = tuple(fold(sdef, env)) if sdef is not None else tuple(env["phases"])
+                need = tuple(fold(parser_default, {}))
+            except NotLiteral:
+                got = need = None
+            ctx.check(got is not None and set(env["phases"]) <= set(got), a, "suffixes-include-phases", "the suffix set %s must contain every phase suffix" % (got,), node=c)
+            ctx.check(got is not None and set(need) <= set(got), a, "suffixes-cover-notation-defaults",
+                      "with the default phases the suffix set is %s; the formula notation's own suffixes are %s: a charged formula ending in a missing suffix (e.g. 'Na+(aq)') cannot be parsed" % (got, need), node=c)
+            # the default index is used only when no suffix matched (0 is a legitimate index)
+            ctx.check(has(fn, "if p_i is None: if default_phase_idx is None: raise ValueError('Could not determine phase_idx') else: p_i = default_phase_idx"), a, "default-only-when-unmatched",
+                      "default_phase_idx may replace p_i only when p_i is None (an index 0 selected by the suffix is a match)", node=fn)
             # list-form phases: index + 1 ; dict-form: its value
             loops = for_loops(fn)
             ok_enum = ok_dict = False
@@ -373,6 +398,40 @@ def r6_hydrate(ctx):
     ctx.check(ok, a, "hydrate-multiplier-rendered", "the hydrate multiplier must be rendered as str(m) when m != 1", node=f2)
 
 
+def r8_prefix_rendering(ctx):
+    """each dropped prefix is rendered by its own table entry; sequential substitution is safe only on substring-free tables"""
+    m, env = _tables(ctx)
+    fn = ctx.func(PARSING, "_formula_to_format")
+    a = PARSING + ":_formula_to_format"
+    pre = None
+    for n in walk_shallow(fn):
+        if isinstance(n, ast.Assign) and U(n.targets[0]) == "pre_str":
+            pre = n.value
+    if pre is None:
+        raise AnalysisError("anchor vanished: pre_str in _formula_to_format")
+    uses_subs = any(call_name(c) == "_subs" for c in ast.walk(pre) if isinstance(c, ast.Call))
+    direct = has(pre, "prefixes[x] for x in parts[2]", scope=fn)
+    if direct and not uses_subs:
+        ctx.holds(a, "prefix-by-lookup")
+        ctx.holds(a, "prefix-order-kept")
+    else:
+        # sequential str.replace over all keys: no key may occur inside another key or inside an earlier replacement
+        bad = []
+        for tab in ("_latex_mapping", "_unicode_mapping", "_html_mapping"):
+            t = env.get(tab) or {}
+            keys = list(t)
+            for i, k in enumerate(keys):
+                for j, k2 in enumerate(keys):
+                    if k != k2 and k in k2:
+                        bad.append("%s: %r occurs inside %r" % (tab, k, k2))
+        ctx.check(uses_subs and not bad, a, "prefix-by-lookup", "prefixes are rendered by substituting every table key in turn, but the table is not substring free (%s ...): "
+                  "'beta-', 'zeta-' and 'theta-' contain 'eta-' and are rendered wrongly" % "; ".join(bad[:3]), node=pre)
+    ret = [n for n in walk_shallow(fn) if isinstance(n, ast.Return)][-1]
+    ctx.check(has(ret.value, "pre_str + string + ''.join(parts[3])", scope=fn), a, "prefix+body+suffix", "the rendering must be prefixes + body + suffixes", node=ret)
+    # infix substitution acts on the separator only
+    ctx.check(has(fn, "string += _subs('..', infixes)"), a, "infix-of-separator", "the hydrate separator must be rendered from the infix table", node=fn)
+
+
 RULES = [
     Rule("C13-R1", r1_greek, 100, "greek prefix tables vs unicodedata / html.entities / LaTeX macro names; key sets; infix tables"),
     Rule("C13-R2", r2_digits, 24, "subscript/superscript digit tables vs unicodedata"),
@@ -381,6 +440,7 @@ RULES = [
     Rule("C13-R5", r5_one_formula, 12, "from_formula derives names and composition from the same formula (suffixes=phases)"),
     Rule("C13-R6", r6_hydrate, 5, "hydrate handling identical in composition and rendering"),
     Rule("C13-R7", r7_count_token, 2, "renderer and parser count token: decimal alternative first"),
+    Rule("C13-R8", r8_prefix_rendering, 3, "prefix rendering by direct lookup (or on a substring-free table)"),
 ]
 
 MUTANTS = [
@@ -396,7 +456,12 @@ MUTANTS = [
     Mutant("charge-sign-first", [(PARSING, '"%d-" % -chg', '"-%d" % -chg')], "C13-R4", "charge-token"),
     Mutant("charge-one-kept", [(PARSING, 'token = "+" if chg == 1 else "%d+" % chg', 'token = "%d+" % chg')], "C13-R4", "charge-token"),
     Mutant("charge-neg-magnitude", [(PARSING, '"%d-" % -chg', '"%d-" % chg')], "C13-R4", "charge-token"),
-    Mutant("species-composition-no-phases", [(CHEM, "composition=formula_to_composition(formula, suffixes=phases),", "composition=formula_to_composition(formula),")], "C13-R5", "composition"),
+    Mutant("species-composition-no-phases", [(CHEM, "composition=formula_to_composition(formula, suffixes=suffixes),", "composition=formula_to_composition(formula),")], "C13-R5", "composition"),
+    Mutant("species-composition-other-suffixes", [(CHEM, "composition=formula_to_composition(formula, suffixes=suffixes),", "composition=formula_to_composition(formula, suffixes=phases),")], "C13-R5", "one-suffix-set"),
+    Mutant("species-suffixes-without-aq", [(CHEM, '        suffixes = tuple(phases) + tuple(s for s in ("(aq)",) if s not in phases)\n', "        suffixes = tuple(phases)\n")], "C13-R5", "notation-defaults"),
+    Mutant("species-default-when-falsy", [(CHEM, "            if p_i is None:\n                if default_phase_idx is None:", "            if not p_i:\n                if default_phase_idx is None:")], "C13-R5", "default-only"),
+    Mutant("prefix-sequential-substitution", [(PARSING, '    pre_str = "".join(prefixes[x] for x in parts[2])\n', '    pre_str = "".join(map(lambda x: _subs(x, prefixes), parts[2]))\n')], "C13-R8", "prefix-by-lookup"),
+    Mutant("greek-u-from-codepoint-range", [(PARSING, '_greek_u = "αβγδεζηθικλμνξοπρστυφχψω"', '_greek_u = "".join(map(chr, range(ord("α"), ord("ω") + 1)))')], "C13-R1", ""),
     Mutant("species-phase-index", [(CHEM, "p_i = idx + 1", "p_i = idx")], "C13-R5", "phase-index"),
     Mutant("renderer-integer-first", [(PARSING, r'r"([0-9]+\.[0-9]+|[0-9]+)"', r'r"([0-9]+|[0-9]+\.[0-9]+)"')], "C13-R7", "count-pattern"),
     Mutant("render-suffix-default", [(PARSING, '    infixes=None,\n    suffixes=("(s)", "(l)", "(g)", "(aq)"),', '    infixes=None,\n    suffixes=("(s)", "(l)", "(g)"),')], "C13-R6", "suffixes"),
